@@ -173,6 +173,111 @@ Proof.
   - run ltac:(apply try_ok; exact E2). exists o2, e2. unfold ret. f_equal. f_equal. rewrite !zlen_app. unfold byte in *. lia.
 Qed.
 
+(* ---------- a literal qualifier:  name, equals sign, the value to the end of the line *)
+Lemma pLine_eof_okp line : no_eol line -> okp pLine line [] line.
+Proof.
+  intros H o e a fr k. unfold pLine. rewrite app_nil_r.
+  unfold bind at 1. unfold get. cbn [rest].
+  rewrite (calc_line_eof line 0 0 H). cbn [Z.add].
+  assert (Hh : has_n line (Z.to_nat (zlen line)) = true) by (rewrite nat_zlen; apply has_n_le; lia).
+  rewrite (bind_ok _ _ _ (Some tt, EOther) (mkst line o (Some (o + zlen line)) a (fr :: k)))
+    by (apply try_ok, request_ok, Hh).
+  unfold bind at 1. unfold buffer. cbn [endr off rest].
+  replace (o + zlen line - o) with (zlen line) by lia.
+  replace (zlen line <? 0) with false by (symmetry; apply Z.ltb_ge; apply zlen_nonneg).
+  rewrite nat_zlen, firstn_all.
+  rewrite (bind_ok _ _ _ tt _ (advance_ne _ o a fr k (zlen line) (zlen_nonneg _) Hh)).
+  rewrite nat_zlen, skipn_all.
+  assert (Hs : try (skip 0) (mkst [] (o + zlen line) None (a + zlen line) (fr :: k)) =
+               (Ok (Some tt, EOther), mkst [] (o + zlen line + 0) None (a + zlen line + 0) (fr :: k))).
+  { apply try_ok. unfold skip. erewrite bind_ok; [|apply request_ok; reflexivity].
+    apply (advance_ne [] (o + zlen line) (a + zlen line) fr k 0); [lia|reflexivity]. }
+  rewrite (bind_ok _ _ _ _ _ Hs). rewrite !Z.add_0_r. do 2 eexists. reflexivity.
+Qed.
+
+Definition nextq (prefix R : list byte) : Prop :=
+  is_prefix (prefix ++ [47]) R = true \/ is_prefix prefix R = false.
+
+Lemma is_prefix_app_true (p t : list byte) : is_prefix p (p ++ t) = true.
+Proof. induction p as [|c p IH]; [reflexivity|]. cbn [app is_prefix]. now rewrite Z.eqb_refl, IH. Qed.
+
+Lemma is_prefix_split (p q R : list byte) : is_prefix (p ++ q) R = true -> exists R', R = p ++ R' /\ is_prefix q R' = true.
+Proof.
+  revert R. induction p as [|c p IH]; intros R H; [exists R; auto|].
+  destruct R as [|d R]; [discriminate|]. cbn [app is_prefix] in H. apply andb_true_iff in H as [H1 H2].
+  apply Z.eqb_eq in H1. subst d. destruct (IH R H2) as (R' & -> & H'). exists R'. auto.
+Qed.
+
+(* the loop of literalQualifierValueParser stops at once after a one-line value *)
+Lemma literal_lines_stop prefix p R fuel o e a (F fr : frame) k : nextq prefix R ->
+  exists o' e', literal_lines (S fuel) prefix p (mkst R o e a ((R, o, a) :: F :: fr :: k)) =
+                (Ok p, mkst R o' e' a (F :: fr :: k)).
+Proof.
+  intros [Hq|Hn]; cbn [literal_lines].
+  - destruct (is_prefix_split prefix [47] R Hq) as (R' & -> & H47).
+    destruct R' as [|c R'']; [discriminate|]. cbn [is_prefix] in H47. apply andb_true_iff in H47 as [Hc _].
+    apply Z.eqb_eq in Hc. subst c.
+    destruct (pBytes_ok prefix (47 :: R'') o e a ((prefix ++ 47 :: R'', o, a) :: F :: fr :: k)) as (o1 & e1 & E1).
+    run ltac:(apply try_ok; exact E1). run ltac:(apply try_ok; apply next_cons). cbn [Z.eqb Pos.eqb].
+    run ltac:(apply pop_ne). do 2 eexists. reflexivity.
+  - destruct (pBytes_fail prefix R o e a ((R, o, a) :: F :: fr :: k) Hn) as (kk & e1 & E1).
+    run ltac:(apply try_err; exact E1). run ltac:(apply drop_ne). do 2 eexists. reflexivity.
+Qed.
+
+Definition lit_type (r : registry) (name : list byte) : Prop := qualifier_type r name = 1.
+
+Lemma literal_line r name v p : lit_type r name -> Forall (fun c => is_snake c = true) name -> no_eol v ->
+  add_prefix (qualifier_show r name v) p = [47] ++ name ++ [61] ++ v.
+Proof.
+  intros Ht Hs Hv. unfold qualifier_show. rewrite Ht. cbn [Z.eqb Pos.eqb].
+  rewrite !add_prefix_app, (add_prefix_no10 name p (snake_no10 name Hs)).
+  rewrite (add_prefix_no10 v p) by (eapply Forall_impl; [|exact Hv]; intros c [H _]; exact H). reflexivity.
+Qed.
+
+Lemma literal_value_reads prefix v eol R : no_eol v -> eol_post eol R -> nextq prefix R ->
+  okp (literal_qualifier_parser prefix) (([61] ++ v) ++ eol) R v.
+Proof.
+  intros Hv Heol Hnext o e a fr k. unfold literal_qualifier_parser. run ltac:(apply push_eq).
+  rewrite <- !app_assoc. cbn [app].
+  match goal with |- context [(?rr, o, a) :: fr :: k] => set (F := (rr, o, a)) end.
+  run ltac:(apply try_ok; apply next_cons). cbn [Z.eqb Pos.eqb negb].
+  run ltac:(apply advance_ne; [lia|reflexivity]). cbn [skipn Z.to_nat Pos.to_nat Pos.iter_op Nat.add].
+  change (Pos.to_nat 1) with 1%nat. cbn [skipn]. fold F.
+  assert (ELV : exists o2 e2, literal_value_parser prefix (mkst (v ++ eol ++ R) (o + 1) None (a + 1) (F :: fr :: k)) =
+                              (Ok v, mkst R o2 e2 (a + 1 + zlen (v ++ eol)) (F :: fr :: k))).
+  { unfold literal_value_parser.
+    assert (EL : exists o1 e1, pLine (mkst (v ++ eol ++ R) (o + 1) None (a + 1) (F :: fr :: k)) =
+                               (Ok v, mkst R o1 e1 (a + 1 + zlen (v ++ eol)) (F :: fr :: k))).
+    { destruct Heol as [->|[-> ->]].
+      - destruct (pLine_okp v R Hv (o + 1) None (a + 1) F (fr :: k)) as (o1 & e1 & E1).
+        rewrite <- app_assoc in E1. do 2 eexists. exact E1.
+      - destruct (pLine_eof_okp v Hv (o + 1) None (a + 1) F (fr :: k)) as (o1 & e1 & E1).
+        rewrite !app_nil_r in *. do 2 eexists. exact E1. }
+    destruct EL as (o1 & e1 & EL). run ltac:(exact EL). run ltac:(apply push_eq).
+    unfold bind at 1. unfold get. cbn [rest].
+    destruct (literal_lines_stop prefix v R (length R) o1 e1 (a + 1 + zlen (v ++ eol)) F fr k Hnext) as (o2 & e2 & E2).
+    exists o2, e2. eapply eq_trans; [exact E2|]. reflexivity. }
+  destruct ELV as (o2 & e2 & ELV). run ltac:(exact ELV). run ltac:(apply drop_ne).
+  exists o2, e2. unfold ret. f_equal. f_equal. unfold zlen. cbn [app length]. rewrite ?app_length. cbn [length]. unfold byte in *. lia.
+Qed.
+
+(* ---------- QualifierParser on a written literal qualifier *)
+Theorem literal_qualifier_roundtrip r reg prefix name v eol R :
+  snake name -> lit_type r name -> lit_type reg name -> no_eol v -> eol_post eol R -> nextq prefix R ->
+  okp (qualifier_parser prefix reg) ((prefix ++ add_prefix (qualifier_show r name v) prefix) ++ eol) R ((name, v), reg).
+Proof.
+  intros Hsn Htr Htreg Hv Heol Hnext o e a fr k.
+  rewrite (literal_line r name v prefix Htr (proj2 Hsn) Hv).
+  unfold qualifier_parser.
+  replace ((prefix ++ [47] ++ name ++ [61] ++ v) ++ eol)
+    with (((prefix ++ [47]) ++ name) ++ (([61] ++ v) ++ eol)) by (rewrite <- !app_assoc; reflexivity).
+  destruct (qualifier_name_reads prefix name ((([61] ++ v) ++ eol) ++ R) Hsn eq_refl o e a fr k) as (o1 & e1 & E1).
+  rewrite <- app_assoc. run ltac:(exact E1).
+  destruct (literal_value_reads prefix v eol R Hv Heol Hnext o1 e1 (a + zlen ((prefix ++ [47]) ++ name)) fr k) as (o2 & e2 & E2).
+  unfold lit_type in Htreg. rewrite Htreg. cbn [Z.eqb Pos.eqb].
+  run ltac:(exact E2). exists o2, e2. unfold ret. f_equal. f_equal. rewrite !zlen_app. unfold byte in *. lia.
+Qed.
+
 (* ---------- pars.Many(QualifierParser): all qualifiers of a feature *)
 Definition reg_step (reg : registry) (name : list byte) : registry :=
   if qualifier_type reg name =? 3 then register reg 0 name else reg.
@@ -189,12 +294,45 @@ Proof.
   destruct (bytes_eqb n m); cbn [orb]; [left; reflexivity|trivial].
 Qed.
 
-(* one written qualifier with its line end *)
+Lemma bytes_eqb_true a b : bytes_eqb a b = true -> a = b.
+Proof.
+  unfold bytes_eqb. revert b. induction a as [|x a IH]; destruct b as [|y b]; cbn [list_eqb]; try discriminate; [reflexivity|].
+  intros H. apply andb_true_iff in H as [H1 H2]. apply Z.eqb_eq in H1. subst. f_equal. now apply IH.
+Qed.
+
+Lemma lit_type_step reg m n : lit_type reg n -> lit_type (reg_step reg m) n.
+Proof.
+  unfold reg_step. destruct (qualifier_type reg m =? 3) eqn:E3; [|trivial].
+  apply Z.eqb_eq in E3. intros Hn. unfold lit_type in *.
+  unfold qualifier_type, register in *. cbn [Z.eqb rq rl rt]. rewrite mem_cons.
+  destruct (bytes_eqb n m) eqn:Enm.
+  - apply bytes_eqb_true in Enm. subst m. rewrite Hn in E3. discriminate.
+  - cbn [orb]. exact Hn.
+Qed.
+
+(* one written qualifier *)
 Definition qline (r : registry) (prefix : list byte) (q : list byte * list byte) : list byte :=
   prefix ++ add_prefix (qualifier_show r (fst q) (snd q)) prefix.
 
+(* written quoted (values without double quote or backslash, K10/K13) or literal
+   (a one-line value) *)
 Definition qok (r : registry) (prefix : list byte) (q : list byte * list byte) : Prop :=
-  snake (fst q) /\ quoted_type r (fst q) /\ plain (snd q) /\ no_occ (10 :: prefix) (snd q).
+  snake (fst q) /\
+  ((quoted_type r (fst q) /\ plain (snd q) /\ no_occ (10 :: prefix) (snd q)) \/
+   (lit_type r (fst q) /\ no_eol (snd q))).
+
+(* the reader's registry gives the name the reading the writer's gave it *)
+Definition reg_ok (r reg : registry) (name : list byte) : Prop :=
+  (quoted_type r name -> quoted_type reg name) /\ (lit_type r name -> lit_type reg name).
+
+Lemma reg_ok_step r reg m n : reg_ok r reg n -> reg_ok r (reg_step reg m) n.
+Proof. intros [H1 H2]. split; intros H; [apply quoted_type_step, H1, H|apply lit_type_step, H2, H]. Qed.
+
+Lemma quoted_not_lit r n : quoted_type r n -> lit_type r n -> False.
+Proof. unfold quoted_type, lit_type. intros [H|H] H1; rewrite H in H1; discriminate. Qed.
+
+Lemma lit_step_same reg n : lit_type reg n -> reg_step reg n = reg.
+Proof. unfold lit_type, reg_step. intros ->. reflexivity. Qed.
 
 (* the text of the qualifiers as the reader meets it: every qualifier ends its
    line, except that the very last one may end the input *)
@@ -211,11 +349,63 @@ Proof.
   pose proof (zlen_nonneg pt). pose proof (zlen_nonneg (add_prefix (qualifier_show r (fst q) (snd q)) (p0 :: pt))). lia.
 Qed.
 
+Lemma qline_starts r prefix q : exists t, qline r prefix q = (prefix ++ [47]) ++ t.
+Proof.
+  unfold qline, qualifier_show.
+  destruct (qualifier_type r (fst q) =? 1); [|destruct (qualifier_type r (fst q) =? 2)];
+    rewrite add_prefix_app; change (add_prefix [47] prefix) with [47]; eexists; rewrite <- app_assoc; reflexivity.
+Qed.
+
+Lemma qtext_next r prefix q t last post : nextq prefix (qtext r prefix (q :: t) last ++ post).
+Proof.
+  left. destruct (qline_starts r prefix q) as (x & E).
+  destruct t as [|q2 t'].
+  - cbn [qtext]. rewrite E. repeat rewrite <- (app_assoc (prefix ++ [47])). apply is_prefix_app_true.
+  - change (qtext r prefix (q :: q2 :: t') last) with (qline r prefix q ++ [10] ++ qtext r prefix (q2 :: t') last).
+    rewrite E. repeat rewrite <- (app_assoc (prefix ++ [47])). apply is_prefix_app_true.
+Qed.
+
+Lemma is_prefix_app_false (p q R : list byte) : is_prefix p R = false -> is_prefix (p ++ q) R = false.
+Proof.
+  revert R. induction p as [|c p IH]; intros R H; [discriminate|].
+  destruct R as [|d R]; [reflexivity|]. cbn [app is_prefix] in *.
+  destruct (c =? d); [cbn [andb] in *; now apply IH|reflexivity].
+Qed.
+
+Lemma qualifier_step r reg prefix q : prefix <> [] -> no10 prefix -> plain prefix ->
+  qok r prefix q -> reg_ok r reg (fst q) ->
+  forall eol R, eol_post eol R -> nextq prefix R ->
+  okp (qualifier_parser prefix reg) (qline r prefix q ++ eol) R ((fst q, snd q), reg_step reg (fst q)).
+Proof.
+  intros Hne H10 Hpp [Hsn [(Htr & Hpv & Hocc)|(Htr & Hv)]] [Hq Hl] eol R Heol Hnext.
+  - exact (quoted_qualifier_roundtrip r reg prefix (fst q) (snd q) eol R Hsn Htr (Hq Htr) Hne H10 Hpp Hpv Hocc Heol).
+  - rewrite (lit_step_same reg (fst q) (Hl Htr)).
+    exact (literal_qualifier_roundtrip r reg prefix (fst q) (snd q) eol R Hsn Htr (Hl Htr) Hv Heol Hnext).
+Qed.
+
+Lemma qualifier_stops prefix reg r0 : is_prefix (prefix ++ [47]) r0 = false -> failp (qualifier_parser prefix reg) r0.
+Proof.
+  intros H o e a fr k. unfold qualifier_parser. apply failp_bind. clear o e a fr k.
+  intros o e a fr k. unfold qualifier_name_parser. cbv zeta. unfold byte in *.
+  remember (prefix ++ [47]) as p eqn:Ep.
+  destruct (has_n r0 (Z.to_nat (zlen p))) eqn:Hh.
+  - rewrite (bind_ok _ _ _ tt _ (request_ok _ o e a (fr :: k) (zlen p) Hh)).
+    unfold bind at 1. unfold buffer. cbn [endr off rest].
+    replace (o + zlen p - o) with (zlen p) by lia.
+    replace (zlen p <? 0) with false by (symmetry; apply Z.ltb_ge; apply zlen_nonneg).
+    assert (Hb : bytes_eqb (firstn (Z.to_nat (zlen p)) r0) p = false).
+    { rewrite nat_zlen in *. unfold bytes_eqb. clear - H. revert r0 H. induction p as [|x t IH]; intros r0 H; [discriminate|].
+      destruct r0 as [|y u]; [reflexivity|]. cbn [length firstn list_eqb is_prefix] in *.
+      rewrite (Z.eqb_sym y x). destruct (x =? y); [cbn [andb] in *; apply IH; exact H|reflexivity]. }
+    unfold byte in *. rewrite Hb. cbn [negb]. do 2 eexists. reflexivity.
+  - erewrite bind_err; [|apply request_fail; exact Hh]. do 2 eexists. reflexivity.
+Qed.
+
 Lemma qualifiers_loop_reads r prefix : prefix <> [] -> no10 prefix -> plain prefix ->
   forall qs last_eol post, Forall (qok r prefix) qs -> eol_post last_eol post ->
-  (forall reg', failp (qualifier_parser prefix reg') post) ->
+  is_prefix prefix post = false ->
   forall fuel reg start acc o e a (fr : frame) k,
-  (forall q, In q qs -> quoted_type reg (fst q)) ->
+  (forall q, In q qs -> reg_ok r reg (fst q)) ->
   (length qs < fuel)%nat -> (qs <> [] -> start <= a) -> (acc <> [] -> start < a) ->
   exists o' e' a',
     qualifiers_loop fuel prefix reg start acc (mkst (qtext r prefix qs last_eol ++ post) o e a (fr :: k)) =
@@ -223,18 +413,14 @@ Lemma qualifiers_loop_reads r prefix : prefix <> [] -> no10 prefix -> plain pref
 Proof.
   intros Hne H10 Hpp. induction qs as [|q t IH]; intros last_eol post Hok Heol Hstop fuel reg start acc o e a fr k Hreg Hfuel Hs1 Hs2;
     (destruct fuel as [|f]; [cbn [length] in Hfuel; lia|]); cbn [qualifiers_loop].
-  - cbn [qtext app]. destruct (Hstop reg o e a fr k) as (kk & e' & E).
+  - cbn [qtext app]. destruct (qualifier_stops prefix reg post (is_prefix_app_false prefix [47] post Hstop) o e a fr k) as (kk & e' & E).
     run ltac:(apply try_err; exact E). rewrite app_nil_r. do 3 eexists. reflexivity.
-  - inversion Hok as [|? ? (Hsn & Htr & Hpv & Hocc) Hok']; subst.
-    assert (Htreg : quoted_type reg (fst q)) by (apply Hreg; now left).
-    assert (Hstep : forall eol R, eol_post eol R ->
-      exists o1 e1, qualifier_parser prefix reg (mkst ((qline r prefix q ++ eol) ++ R) o e a (fr :: k)) =
-                    (Ok ((fst q, snd q), reg_step reg (fst q)), mkst R o1 e1 (a + zlen (qline r prefix q ++ eol)) (fr :: k))).
-    { intros eol R HeR. exact (quoted_qualifier_roundtrip r reg prefix (fst q) (snd q) eol R Hsn Htr Htreg Hne H10 Hpp Hpv Hocc HeR o e a fr k). }
+  - inversion Hok as [|? ? Hq Hok']; subst.
+    pose proof (qualifier_step r reg prefix q Hne H10 Hpp Hq (Hreg q (or_introl eq_refl))) as Hstep.
     pose proof (qline_nonempty r prefix q Hne) as Hpos.
     destruct t as [|q2 t'].
     + (* the last qualifier *)
-      cbn [qtext]. destruct (Hstep last_eol post Heol) as (o1 & e1 & E1).
+      cbn [qtext]. destruct (Hstep last_eol post Heol (or_intror Hstop) o e a fr k) as (o1 & e1 & E1).
       run ltac:(apply try_ok; exact E1). unfold bind at 1. unfold position. cbn [apos].
       replace (a + zlen (qline r prefix q ++ last_eol) =? start) with false
         by (symmetry; apply Z.eqb_neq; rewrite zlen_app; pose proof (zlen_nonneg last_eol); specialize (Hs1 ltac:(discriminate)); lia).
@@ -250,13 +436,14 @@ Proof.
       change (qtext r prefix (q :: q2 :: t') last_eol) with (qline r prefix q ++ [10] ++ qtext r prefix (q2 :: t') last_eol).
       replace ((qline r prefix q ++ [10] ++ qtext r prefix (q2 :: t') last_eol) ++ post)
         with ((qline r prefix q ++ [10]) ++ (qtext r prefix (q2 :: t') last_eol ++ post)) by (rewrite <- !app_assoc; reflexivity).
-      destruct (Hstep [10] (qtext r prefix (q2 :: t') last_eol ++ post) (or_introl eq_refl)) as (o1 & e1 & E1).
+      destruct (Hstep [10] (qtext r prefix (q2 :: t') last_eol ++ post) (or_introl eq_refl)
+                  (qtext_next r prefix q2 t' last_eol post) o e a fr k) as (o1 & e1 & E1).
       run ltac:(apply try_ok; exact E1). unfold bind at 1. unfold position. cbn [apos].
       replace (a + zlen (qline r prefix q ++ [10]) =? start) with false
         by (symmetry; apply Z.eqb_neq; rewrite zlen_app; change (zlen [10]) with 1; specialize (Hs1 ltac:(discriminate)); lia).
       destruct (IH last_eol post Hok' Heol Hstop f (reg_step reg (fst q)) start (q :: acc) o1 e1
                   (a + zlen (qline r prefix q ++ [10])) fr k) as (o2 & e2 & a2 & E2).
-      * intros q0 Hin. apply quoted_type_step. apply Hreg. now right.
+      * intros q0 Hin. apply reg_ok_step. apply Hreg. now right.
       * cbn [length] in *. lia.
       * intros _. rewrite zlen_app. change (zlen [10]) with 1. specialize (Hs1 ltac:(discriminate)). lia.
       * intros _. rewrite zlen_app. change (zlen [10]) with 1. specialize (Hs1 ltac:(discriminate)). lia.
